@@ -581,10 +581,13 @@ func unpackNodes(node *yaml.Node) []*yaml.Node {
 			case yaml.SequenceNode:
 				for _, item := range part.Content {
 					switch {
-					case item.Alias != nil:
+					case item.Alias != nil && item.Alias.Kind == yaml.MappingNode:
 						nodes = append(nodes, resolveMapAlias(item, node).Content...)
 					case item.Kind == yaml.MappingNode:
 						nodes = append(nodes, mergedKeys(item, node)...)
+					default:
+						// Same for a list with something that is not a mapping in it.
+						nodes = append(nodes, mergeKey, item)
 					}
 				}
 			default:
